@@ -101,7 +101,7 @@ def main():
     tier = sys.argv[1] if len(sys.argv) > 1 else "quick"
     ck = Check(PID, tier, "translation_validation")
     tq = 15.0 if tier == "quick" else 180.0
-    K = 2 if tier == "quick" else 3
+    K = int(os.environ.get("VERIF_K", "2"))   # thorough widens layouts / configurations / programs; VERIF_K=3 is the (slow) deeper row bound
     driver.build()
     path, _ = mir.dump_mir()
     fns = mir.parse_mir(path)
@@ -140,15 +140,15 @@ def main():
             tasks.append(dict(qi=qi, li=li, lay=lay, sql=sql, kc=kc, ac=ac, pun=pun, clean=clean, orig=orig, rendered=ans.get("sql", {}).get("sqlite"), rendered_orig=ans.get("sql_original", {}).get("sqlite")))
         if qi % 4 == 0:
             ck.sample(dict(sql=sql, privacy_unit=pun, dp_event=ans["ok"]["dp_event_s"].strip()))
-    from common import parallel_build
-    for res in parallel_build(tasks, build_task):
+    from common import budgeted
+    built, results = budgeted(ck, tasks, build_task, lambda qs: smt.solve_all(qs, tq, workers=14, progress=200), tier)
+    for res in built:
         if "unsupported" in res:
             stats["unsupported"][res["unsupported"]] = stats["unsupported"].get(res["unsupported"], 0) + 1
             continue
         for q, mt in res["queries"]:
             queries.append(q)
             meta[q["id"]] = mt
-    results = smt.solve_all(queries, tq, workers=14, progress=200)
     ck.count(results)
     n_w = disagreements = 0
     for r in results:
@@ -193,7 +193,7 @@ def main():
     if n_w == 0:
         ck.inconclusive("no witness is satisfiable: vacuous run")
     cov = dict(
-        programs=stats["programs"], disagreements_checked=disagreements, refused_by_rewriter=stats["refused"], skipped_unsupported=stats["unsupported"], skipped_key_release=stats["tau_filtered"],
+        exploration=getattr(ck, "budget", None), programs=stats["programs"], disagreements_checked=disagreements, refused_by_rewriter=stats["refused"], skipped_unsupported=stats["unsupported"], skipped_key_release=stats["tau_filtered"],
         layouts=len(lays), bounds=dict(rows_per_table=K, outside=["more than %d rows per table / per unit" % K, "VAR / STD (the reassembly is a known finding of the design, not yet encoded)", "queries whose keys are released by thresholding (C04)", "float rounding (reals)"]),
         evaluations=len(queries), distinct_nontrivial=len(set(q["script"] for q in queries)),
     )
